@@ -12,6 +12,8 @@
 package fuzzsim
 
 import (
+	"encoding/hex"
+	"encoding/json"
 	"fmt"
 	"os"
 	"regexp"
@@ -96,11 +98,6 @@ type panicRec struct {
 	stack string
 }
 
-type curCmd struct {
-	shape string
-	args  [][]byte
-}
-
 type sim struct {
 	c   *core.RunCtx
 	t   *core.Tape
@@ -113,16 +110,14 @@ type sim struct {
 
 	mu         sync.Mutex
 	panics     []panicRec
-	wrappedSM  map[*common.SMCmdRouter]bool
-	wrappedCR  map[*common.CmdRouter]bool
+	wrappedSM  *common.SMCmdRouter // routers of the current incarnation that carry the observers
+	wrappedCR  *common.CmdRouter   // (only the latest: older incarnations must stay collectable)
 	dumpPanics []string
 	snapHits   int
 	maxBatch   uint64 // largest number of entries applied by one applyAll since reset
 	lastApplied uint64
 
-	cur        *curCmd
-	hitShapes  map[string]bool
-	panicShape map[string]string // command name -> shape key of its last apply panic
+	hitShapes  map[string]bool // argument shapes that already produced a finding in this run: not sent again
 	extraWatch []string
 	batchAbortHazard bool
 	hllKeys    map[string]bool // keys that took an accepted PFADD: their string view is a cache image
@@ -130,7 +125,7 @@ type sim struct {
 	base  *dumpT // dump valid for the current state (nil = stale)
 	baseR rawSnap
 
-	nMut, nErr, nAccepted, nBatchMut, nNext, nRestart int
+	nMut, nErr, nAccepted, nBatchMut, nNext, nRestart, nKills, nRestartTotal int
 	samples                                              []string
 	wallStart                                            int64
 	aborted                                              bool
@@ -169,8 +164,8 @@ func knownOOM(args [][]byte) bool {
 var liveJournal = os.Getenv("VERIF_REPLAY") != "" || os.Getenv("VERIF_FUZZ_JOURNAL") != ""
 
 func Run(c *core.RunCtx) {
-	s := &sim{c: c, t: c.Tape, wrappedSM: map[*common.SMCmdRouter]bool{}, wrappedCR: map[*common.CmdRouter]bool{},
-		hitShapes: map[string]bool{}, panicShape: map[string]string{}, hllKeys: map[string]bool{}}
+	s := &sim{c: c, t: c.Tape,
+		hitShapes: map[string]bool{}, hllKeys: map[string]bool{}}
 	s.cfg = drawCfg(c)
 	raft.VerifSeedGlobalRand(int64(c.Tape.U32()))
 	c.Log("cfg", "%+v", s.cfg)
@@ -188,6 +183,12 @@ func Run(c *core.RunCtx) {
 		}()
 		synctest.Test(c.T, func(t *testing.T) { s.bubble() })
 	}()
+	if os.Getenv("VERIF_FUZZ_MEMDEBUG") != "" {
+		var ms runtime.MemStats
+		runtime.GC()
+		runtime.ReadMemStats(&ms)
+		fmt.Fprintf(core.Stdout, "MEMDEBUG heapInuse=%dMiB heapSys=%dMiB goroutines=%d objects=%d\n", ms.HeapInuse>>20, ms.HeapSys>>20, runtime.NumGoroutine(), ms.HeapObjects)
+	}
 	c.NonTrivial = s.nMut >= 20 && s.nErr >= 5 && s.nBatchMut >= 1
 	c.Count("mutated_commands", int64(s.nMut))
 	c.Count("mutated_error_replies", int64(s.nErr))
@@ -380,8 +381,8 @@ func (s *sim) wrapNode(nn *node.NamespaceNode) {
 	}
 	if r := node.VerifSMRouter(nn.Node.VerifStateMachine()); r != nil {
 		s.mu.Lock()
-		done := s.wrappedSM[r]
-		s.wrappedSM[r] = true
+		done := s.wrappedSM == r
+		s.wrappedSM = r
 		s.mu.Unlock()
 		if !done {
 			r.VerifWrapAll(s.wrapInternal)
@@ -389,8 +390,8 @@ func (s *sim) wrapNode(nn *node.NamespaceNode) {
 	}
 	if r := nn.Node.VerifCmdRouter(); r != nil {
 		s.mu.Lock()
-		done := s.wrappedCR[r]
-		s.wrappedCR[r] = true
+		done := s.wrappedCR == r
+		s.wrappedCR = r
 		s.mu.Unlock()
 		if !done {
 			r.VerifWrapMerge(s.wrapMerge)
@@ -485,9 +486,10 @@ func (s *sim) bubble() {
 	s.checkCoverage()
 	// ---- arbitrary small populated state (valid commands only) ----
 	pc := populateCmds()
+	script := scriptCmds()
 	for _, args := range pc {
 		// a tape-chosen subset, so that prior states differ
-		if t.Choose(8) == 7 {
+		if script == nil && t.Choose(8) == 7 {
 			continue
 		}
 		r, ok := s.doValid(args)
@@ -495,6 +497,39 @@ func (s *sim) bubble() {
 			s.violate("populate-failed", "", "valid command %s fails on a fresh node: %s", renderStrs(args), fmtReply(r))
 			return
 		}
+	}
+	if script != nil {
+		s.cfg.restartPm, s.cfg.nextPm = 0, 0
+		for _, cmd := range script {
+			if len(cmd) == 1 && (cmd[0] == "#restart" || cmd[0] == "#kill") {
+				// restart (graceful / kill -9) and compare what the node serves
+				s.quiesce()
+				d0 := s.base
+				if s.restart(cmd[0] == "#restart", "script") {
+					s.reportPanics(s.takePanics(), "script", cmd[0])
+					if df := s.diffRestart(d0, s.dump()); df != "" {
+						s.violate("replay-diverged", s.replayKey("", false), "after %s the node serves different data: %s", cmd[0], df)
+					}
+				}
+				continue
+			}
+			as := make([]arg, len(cmd))
+			for i, a := range cmd {
+				if strings.HasPrefix(a, "hex:") {
+					if b, err := hex.DecodeString(a[4:]); err == nil {
+						a = string(b)
+					}
+				}
+				as[i] = arg{kVal, a}
+				if i == 0 {
+					as[i].k = kName
+				}
+			}
+			s.execMutated(as, []string{"script"}, nil)
+			s.hitShapes = map[string]bool{}
+		}
+		s.finalLiveness()
+		return
 	}
 	if t.Choose(3) == 0 {
 		// prior state "after a restart"
@@ -519,6 +554,9 @@ func (s *sim) bubble() {
 			s.quiesce()
 			d0 := s.base
 			gr := t.Bool(g.graceful)
+			if s.nRestartTotal >= 40 {
+				break
+			}
 			if s.restart(gr, "quiescent") {
 				s.takePanics()
 				d2 := s.dump()
@@ -697,6 +735,14 @@ func classify(call *call, done bool, name string) outcome {
 	o := outcome{done: done}
 	o.replies, o.open = call.conn.replies()
 	o.closed = call.conn.closed
+	if strings.ToLower(name) == "json.objkeys" {
+		// the code under test returns object keys in Go map order: a set
+		for _, r := range o.replies {
+			if arr, ok := r.([]interface{}); ok {
+				sort.Slice(arr, func(i, j int) bool { return fmtReply(arr[i]) < fmtReply(arr[j]) })
+			}
+		}
+	}
 	if len(o.replies) == 0 {
 		o.noReply = true
 		if o.closed && strings.ToLower(name) != "quit" {
@@ -808,6 +854,10 @@ func familyOf(name string) string {
 // statement is the same finding). It returns true if any was recorded.
 func (s *sim) reportPanics(ps []panicRec, shape string, sent string) bool {
 	for _, p := range ps {
+		if strings.Contains(p.val, "is not valid UTF-8") && strings.Contains(p.site, "prometheus") {
+			// one defect, many sites: a table name used as a metrics label
+			p.fn = "metrics-label-invalid-utf8"
+		}
 		switch p.where {
 		case "apply":
 			s.violate("apply-panic", "panic:"+p.fn, "the apply handler of %q panicked in %s at %s: %s -- committed entry args: %s (client sent: %s). Production has no recover in the apply loop: the process dies and the entry is replayed (and panics again) on every restart",
@@ -826,12 +876,28 @@ func (s *sim) reportPanics(ps []panicRec, shape string, sent string) bool {
 	return len(ps) > 0
 }
 
+// firstLines renders the top of a stack without goroutine ids, argument
+// values and pc offsets (they differ between executions).
 func firstLines(s string, n int) string {
-	ls := strings.Split(s, "\n")
-	if len(ls) > n {
-		ls = ls[:n]
+	var out []string
+	for _, l := range strings.Split(s, "\n") {
+		if strings.HasPrefix(l, "goroutine ") || strings.TrimSpace(l) == "" {
+			continue
+		}
+		if strings.HasPrefix(l, "\t") {
+			l = strings.TrimSpace(l)
+			if k := strings.Index(l, " +0x"); k >= 0 {
+				l = l[:k]
+			}
+		} else if k := strings.LastIndex(l, "("); k > 0 {
+			l = l[:k]
+		}
+		out = append(out, l)
+		if len(out) >= n {
+			break
+		}
 	}
-	return strings.Join(ls, " | ")
+	return strings.Join(out, " | ")
 }
 
 func (s *sim) sample(line string) {
@@ -842,8 +908,30 @@ func (s *sim) sample(line string) {
 
 // stepMutated: one mutated command sent alone.
 func (s *sim) stepMutated() {
-	c, t := s.c, s.t
 	as, tags, tp := s.drawMutated(false)
+	s.execMutated(as, tags, tp)
+}
+
+// script: VERIF_FUZZ_SCRIPT='[["setrange","default:tb:s0","-1","v"],["get","default:tb:s0"]]'
+// replaces the tape-driven steps by the given commands (each treated like a
+// mutated command sent alone, with every oracle), after the full population.
+// An argument "hex:..." is decoded from hex (binary bytes); the pseudo commands
+// ["#restart"] and ["#kill"] restart the node gracefully / by kill -9 and
+// compare the dumps. For reproducing a finding by its exact command.
+func scriptCmds() [][]string {
+	v := os.Getenv("VERIF_FUZZ_SCRIPT")
+	if v == "" {
+		return nil
+	}
+	var out [][]string
+	if err := json.Unmarshal([]byte(v), &out); err != nil {
+		panic("fuzzsim: VERIF_FUZZ_SCRIPT is not a JSON array of string arrays: " + err.Error())
+	}
+	return out
+}
+
+func (s *sim) execMutated(as []arg, tags []string, tp *tmpl) {
+	c, t := s.c, s.t
 	shape := shapeOf(as, tags)
 	if s.hitShapes[shape] {
 		c.Count("suppressed_repeat_of_hit_shape", 1)
@@ -867,9 +955,9 @@ func (s *sim) stepMutated() {
 	}
 	ap0 := s.applied()
 	a0 := allocBytes()
-	s.cur = &curCmd{shape: shape, args: args}
+	w0 := wallNow()
 	call, done := s.send(args, nil)
-	s.cur = nil
+	wcmd := wallSince(w0)
 	a1 := allocBytes()
 	o := classify(call, done, name)
 	o.panics = s.takePanics()
@@ -885,7 +973,7 @@ func (s *sim) stepMutated() {
 		s.hitShapes[shape] = true
 	}
 	if !done {
-		s.violate("command-hangs", "hang:"+shape, "no answer to %s within 150 fair rounds (15 s of simulated time)", sent)
+		s.violate("command-hangs", "hang:"+cmdKey(shape), "no answer to %s within 150 fair rounds (15 s of simulated time)", sent)
 		s.hitShapes[shape] = true
 		s.invalidate()
 		return
@@ -893,7 +981,7 @@ func (s *sim) stepMutated() {
 	if o.connPanic {
 		if !hasConnPanic(o.panics) {
 			c.Probe("conn_closed_by_recover")
-			s.violate("conn-panic", "connpanic:"+shape, "the connection was closed without a reply on %s", sent)
+			s.violate("conn-panic", "connpanic:"+cmdKey(shape), "the connection was closed without a reply on %s", sent)
 		}
 		s.hitShapes[shape] = true
 		failed = true
@@ -905,8 +993,32 @@ func (s *sim) stepMutated() {
 		// a crash or a partial write: counted, not reported under this property
 		c.Count("malformed_reply_array_longer_than_written."+strings.ToLower(short(name, 20)), 1)
 	}
-	if d := a1 - a0; d > uint64(256<<20)+uint64(reqSize)*64 {
-		s.violate("huge-alloc", "alloc:"+nameKey(name), "%s (%d request bytes) made the process allocate %d MiB", sent, reqSize, d>>20)
+	s.mu.Lock()
+	snapFired := s.snapHits > snap0
+	s.mu.Unlock()
+	// allocation amplification of requests with few arguments (a request with
+	// 100000 members and a 10 KiB key legitimately churns members x key length
+	// bytes). Not evaluated when the command's entry happened
+	// to trigger a snapshot (the checkpoint of the mem engine serialises the
+	// whole store: a function of the state, not of this request); the pebble
+	// engine allocates memtable arenas on its own schedule, hence the larger
+	// allowance there.
+	allow := uint64(128 << 20)
+	if s.cfg.engine != "mem" {
+		allow = 1 << 30
+	}
+	if d := a1 - a0; d > allow+uint64(reqSize)*64 && !snapFired && len(args) <= 64 {
+		// (rounded down to a power of two so that the message does not depend on allocator noise)
+		p2 := uint64(1)
+		for p2*2 <= d>>20 {
+			p2 *= 2
+		}
+		s.violate("huge-alloc", "alloc:"+nameKey(name), "%s (%d request bytes) made the process allocate more than %d MiB", sent, reqSize, p2)
+		s.hitShapes[shape] = true
+	}
+	if wcmd > 20*time.Second && reqSize < 2<<20 {
+		// (real time: the only oracle that is not a function of the tape)
+		s.violate("command-stalls", "stall:"+nameKey(name), "%s (%d request bytes) kept the node busy for more than 20 s of real time", sent, reqSize)
 		s.hitShapes[shape] = true
 	}
 	if o.isErr {
@@ -917,7 +1029,7 @@ func (s *sim) stepMutated() {
 	r1 := s.rawSnap()
 	st := s.store()
 	if pend := st.VerifDefaultBatchPending(); (pend != 0 || st.VerifIsBatching()) && !noWhiteBox {
-		s.violate("batch-not-empty", "leak:"+shape, "after %s -> %s the store's shared write batch holds %d operation(s) (batching=%v) while nothing is being applied", sent, o.text(), pend, st.VerifIsBatching())
+		s.violate("batch-not-empty", "leak:"+cmdKey(shape), "after %s -> %s the store's shared write batch holds %d operation(s) (batching=%v) while nothing is being applied", sent, o.text(), pend, st.VerifIsBatching())
 		s.hitShapes[shape] = true
 		failed = true
 	}
@@ -925,9 +1037,9 @@ func (s *sim) stepMutated() {
 	if errLike || cls == 'r' || cls == 'm' || cls == 'x' {
 		if changed != "" {
 			if errLike {
-				s.violate("error-changed-state", "partial:"+shape, "%s -> %s, yet the store changed: %s", sent, o.text(), changed)
+				s.violate("error-changed-state", "partial:"+nameKey(name), "%s -> %s, yet the store changed: %s", sent, o.text(), changed)
 			} else {
-				s.violate("read-changed-state", "readwrite:"+shape, "read command %s -> %s changed the store: %s", sent, o.text(), changed)
+				s.violate("read-changed-state", "readwrite:"+cmdKey(shape), "read command %s -> %s changed the store: %s", sent, o.text(), changed)
 			}
 			s.hitShapes[shape] = true
 			failed = true
@@ -943,9 +1055,6 @@ func (s *sim) stepMutated() {
 		s.nAccepted++
 		s.invalidate()
 	}
-	s.mu.Lock()
-	snapFired := s.snapHits > snap0
-	s.mu.Unlock()
 	reachedApply := false
 	if o.isErr && (cls == 'w' || cls == 'M' || tp == nil) {
 		// an error produced by the apply side travels through raft: the applied index moved
@@ -1002,7 +1111,9 @@ func (s *sim) stepMutated() {
 
 func (s *sim) restartProb(reachedApply, snapFired bool) int {
 	p := s.cfg.restartPm
-	if p == 0 {
+	// every incarnation of the node costs ~9 MiB that stay referenced until the
+	// end of the run: at most 40 restarts per run
+	if p == 0 || s.nRestartTotal >= 40 {
 		return 0
 	}
 	if reachedApply {
@@ -1043,14 +1154,15 @@ func hasProcPanic(ps []panicRec) bool {
 	return false
 }
 
-// replayKey names a divergence after restart. "set", "setex", "del" and
-// "hmset" are the commands the apply loop batches into the shared write batch;
-// when one of them failed on the apply side earlier in the run, the known
-// finding replay:batchable-write-error (the abort of the shared batch drops
-// acknowledged neighbours when batch boundaries differ on replay) is present.
+// replayKey names a divergence after restart: by the erroring command if its
+// error came from the apply side, else by "history". (The former known finding
+// replay:batchable-write-error - an apply-side error of set/setex/del/hmset
+// aborted the shared write batch and dropped acknowledged neighbours when batch
+// boundaries differed on replay - was repaired by 20e0e27; its special key is
+// gone, batchAbortHazard only feeds a counter now.)
 func (s *sim) replayKey(name string, reachedApply bool) string {
 	if s.batchAbortHazard {
-		return "replay:batchable-write-error"
+		s.c.Count("replay_divergence_after_batchable_apply_error", 1)
 	}
 	if !reachedApply {
 		return "replay:history"
@@ -1079,6 +1191,16 @@ func (s *sim) diffRestart(a, b *dumpT) string {
 		}
 	}
 	return diffDump(a2, b2)
+}
+
+// cmdKey: the command-name part of a shape ("setrange-negative-offset" ->
+// "setrange"): findings are keyed by failure kind + command, the exact
+// argument shape is in the message.
+func cmdKey(shape string) string {
+	if i := strings.Index(shape, "-"); i > 0 {
+		return shape[:i]
+	}
+	return shape
 }
 
 func nameKey(name string) string {
